@@ -826,7 +826,7 @@ pub fn run_c08(tier: Tier, seed: u64) -> i32 {
         tier,
         seed,
         "exploration",
-        "sorts (multi-key, ASC/DESC, NULLS FIRST/LAST, all key types incl. boolean and date), top-k (ORDER BY .. LIMIT k [OFFSET m] under a total order), inner and outer joins, grouped aggregates incl. COUNT(DISTINCT) over small and medium tables registered in several batches; every statement is executed with unlimited memory and under limits {64 B, 4 KiB, 16 KiB, 64 KiB, 256 KiB, 1 MiB, 3 MiB}; an Ok answer under a limit must equal the unlimited answer (sequence under ORDER BY up to identical rows, multiset otherwise), an explicit error is allowed. distinct = distinct (statement skeleton, limit) whose unlimited answer is non-empty",
+        "sorts (multi-key, ASC/DESC, NULLS FIRST/LAST, all key types incl. boolean and date), top-k (ORDER BY .. LIMIT k [OFFSET m] under a total order), inner and outer joins, grouped aggregates incl. COUNT(DISTINCT) over small and medium tables registered in several batches, and (every sixth database) a narrow sort of one 24-70 thousand row table whose runs exceed the merge read batch; every statement is executed with unlimited memory and under limits {64 B, 4 KiB, 16 KiB, 64 KiB, 256 KiB, 1 MiB, 3 MiB}; an Ok answer under a limit must equal the unlimited answer (sequence under ORDER BY up to identical rows, multiset otherwise), an explicit error is allowed. distinct = distinct (statement skeleton, limit) whose unlimited answer is non-empty",
     );
     let n_dbs = tier.pick(40, 700);
     let per_db = tier.pick(16, 24);
@@ -835,7 +835,18 @@ pub fn run_c08(tier: Tier, seed: u64) -> i32 {
     par_run(&mut rep, seeds, default_threads(), |sd| {
         let mut rng = Rng::new(sd ^ 0xC08);
         let sc = *rng.pick(&[SizeClass::Small, SizeClass::Small, SizeClass::Medium]);
-        let db = gen_db(&mut rng, 2, sc);
+        // every sixth database is one long table under a narrow sort only: with 24-70 thousand
+        // rows the 256 KiB .. 3 MiB limits produce several runs that are each longer than
+        // the merge's read batch (a run is re-read in pieces while others are mid-batch)
+        let long_runs = sd % 6 == 5;
+        let db = if long_runs {
+            let rows = 24_000 + rng.usize(46_000);
+            let key = *rng.pick(&[KeyClass::Unique, KeyClass::DenseDup, KeyClass::WideDup]);
+            vec![gen_table(&mut rng, "t0", &TableSpec { rows, null_pct: 10, key, not_null: false })]
+        } else {
+            gen_db(&mut rng, 2, sc)
+        };
+        let per_db = if long_runs { 2 } else { per_db };
         let mk = |limit: Option<usize>| -> Arc<ExecutionContext> {
             let mut c = match limit {
                 Some(l) => ExecutionContext::with_memory_limit(l),
@@ -855,9 +866,9 @@ pub fn run_c08(tier: Tier, seed: u64) -> i32 {
             f.cross_join = false;
             let mut g = G::new(&mut qrng, f);
             g.total_order_limit = true;
-            let q = match g.rng.below(10) {
+            let q = match if long_runs { 0 } else { g.rng.below(10) } {
                 // a narrow two-column sort of the largest table: long runs (more rows per run than the merge reads at once)
-                0 if g.rng.chance(1, 2) => {
+                0 if long_runs || g.rng.chance(1, 2) => {
                     let t = db.iter().max_by_key(|t| t.rows.len()).unwrap();
                     let desc = g.rng.bool();
                     let core = format!("SELECT r0.id AS c0, r0.i1 AS c1 FROM {} AS r0", t.name);
